@@ -688,7 +688,15 @@ def m_sorted(interp, it, key=None, reverse=False):
 
 
 def m_next(interp, it, *default):
-    from .interp import ProgExc, Obj
+    from .interp import ProgExc, Obj, SymSeq
+    if isinstance(it, SymSeq):
+        k = getattr(it, "_cursor", 0)
+        if interp.truth(k < it.length):
+            it._cursor = k + 1
+            return it.item(k)
+        if default:
+            return default[0]
+        raise ProgExc(StopIteration, "next")
     if isinstance(it, Obj):
         return interp.call_method(it, "__next__", [], {})
     try:
